@@ -182,6 +182,7 @@ func TestCheck(t *testing.T) {
 	cov := map[string]any{}
 	// ---- layer 2 first (cheap) ----
 	runMatch(r, vk.Pick(r, 2, 3), cov)
+	fmt.Printf("layer match: trees=%v evaluations=%v elapsed=%.0fs\n", cov["match_trees"], cov["match_evaluations"], r.Elapsed())
 
 	// ---- layer 1 ----
 	chains := allChains(3)
